@@ -43,7 +43,11 @@ def gen_cip(rng):
             return ('writef', ('sym', 'T', rng.choice([None, 1])), 200, 3, 0, [('i', 7), ('i', rng.choice([8, 2 ** 31 - 1])), ('i', rng.choice([2 ** 32 - 1, 2 ** 31, 9]))])
         return ('write', ('sym', 'S', 0), 199, 2, [('i', rng.choice([5, 32767])), ('i', rng.choice([65535, 32768, 6]))])
     if k < 0.70:
-        return ('read', ('sym', rng.choice(['nosuch', 'Tx']), None), 1)            # unknown tag: CIP status 0x05 expected
+        return ('read', ('sym', rng.choice(['nosuch', 'Tx']), rng.choice([None, None, 3])), 1)            # unknown tag (also with an element index): CIP status 0x05 expected
+    if k < 0.715:
+        # a supported service addressed, by a single request, to an object that does not exist: unroutable - one frame with a non-zero
+        # encapsulation status, and the session ends (inside a bundle the Message Router answers it: next branch)
+        return rng.choice([('get', ('num', 0x77, 1, 1, None)), ('set', ('num', 0x99, 7, 2, None), [0] * 6)])
     if k < 0.74:
         return ('get', ('num', 0x99, 1, 2, None))
     if k < 0.78:
@@ -63,6 +67,25 @@ def gen_cip(rng):
         return ('read', ('num', 0x99, 1, 2, rng.choice([None, 1, 7])), 1)
     members = [gen_cip(rng) for _ in range(rng.randrange(1, 4))]
     return ('multi', [m for m in members if m[0] != 'multi'] or [('read', ('sym', 'T', None), 1)])
+
+
+def noobj(r):
+    return r[0] in ('get', 'set') and r[1][0] == 'num' and (r[1][1], r[1][2]) in ((0x77, 1), (0x99, 7))
+
+
+def routed_ok(cfg, rp):
+    return cfg is None or not rp or (cfg != [] and rp == cfg)
+
+
+def model_part(cfg, session):
+    """The model answers every request the Message Router would; a single request to an object that does not exist never reaches it
+    (the session ends there with a non-zero encapsulation status, judged on the implementation alone): the model gets the requests before it."""
+    for k, (q, sess, cx, opts) in enumerate(session):
+        if q[0] == 'unregister':
+            break
+        if q[0] == 'send' and noobj(q[2]) and routed_ok(cfg, q[1]):
+            return session[:k], k
+    return session, None
 
 
 def gen_session(rng, cfg):
@@ -191,14 +214,22 @@ def run_impl(cfg, frames, whole, aborted_before=None, size=None):
                 pass
             finally:
                 network.recv = saved
-        conn = c02.FakeConn([b''.join(frames)] if whole else list(frames))
+        if whole == 'split':
+            # every frame arrives in two recv() blocks (header and payload written separately, or cut anywhere inside)
+            blocks = []
+            for k, f in enumerate(frames):
+                cut = (24, 1, len(f) - 1, len(f) // 2)[k % 4]
+                blocks += [f[:cut], f[cut:]] if 0 < cut < len(f) else [f]
+            conn = c02.FakeConn(blocks)
+        else:
+            conn = c02.FakeConn([b''.join(frames)] if whole else list(frames))
         conn.send = lambda b, _c=conn: (_c.sent.append(bytes(b)), len(b))[1]       # keep the real session handles
         saved = network.recv
         network.recv = lambda c, maxlen=4096, timeout=None: c.recv(maxlen)
         # the session handle is drawn at random: the run that reads frame by frame makes the generator's first draws the
         # awkward ones (0, and a value drawn before), which the property must survive like any other outcome
         saved_random = ucmm.random
-        if not whole:
+        if whole is False:
             ucmm.random = _ScriptedRandom(saved_random, [0, 0])
         err = None
         try:
@@ -287,6 +318,13 @@ def run(ctx):
         # the same requests one frame per recv(); every third session follows a session from the same peer that was cut inside a frame
         cut = frames[0][:rng.choice([3, 10, 24, len(frames[0]) - 1])] if i % 3 == 0 else None
         r2, err2, image2 = run_impl(cfg, frames, whole=False, aborted_before=cut)
+        if i % 3 == 1:
+            r4, err4, image4 = run_impl(cfg, frames, whole='split')
+            strip4 = lambda rs: [r[:4] + b'\0\0\0\0' + r[8:] if r[:2] == b'\x65\x00' else r for r in rs]
+            if strip4(r4) != strip4(replies) or image4 != image or err4 != err:
+                nbad += 1
+                ctx.violation(dict(frames=[f.hex() for f in frames], replies=[r.hex() for r in replies], replies_when_every_frame_arrives_in_two_blocks=[r.hex() for r in r4], error=err4),
+                              'replies differ when every request frame arrives in two recv() blocks')
         if i % 5 == 0:
             # a simulator started with --size N serves every request whose encapsulated payload is at most N bytes: with N = the largest
             # payload of this session nothing may change
@@ -297,7 +335,7 @@ def run(ctx):
                 nbad += 1
                 ctx.violation(dict(size_option=nmax, frames=[f.hex() for f in frames], replies=[r.hex() for r in replies], replies_with_size_limit=[r.hex() for r in r3]),
                               'with --size N a request of at most N bytes is answered differently (a request of exactly N bytes is refused)')
-        cases.append(enc_model(cfg, store_enc, session, names)); meta.append((cfg, session, frames, replies, err, image, r2, err2, image2))
+        cases.append(enc_model(cfg, store_enc, model_part(cfg, session)[0], names)); meta.append((cfg, session, frames, replies, err, image, r2, err2, image2))
     outs = core.run_model('session', cases)
     nrep = 0
 
@@ -355,14 +393,17 @@ def run(ctx):
                         why = 'non-zero encapsulation status with a payload'; break
                     r = q[2]
                     unknown = lambda x: x[0] == 'read' and x[1][0] == 'sym' and x[1][1] in ('nosuch', 'Tx')
-                    routed_ok = cfg is None or not q[1] or (cfg != [] and q[1] == cfg)
-                    if routed_ok:
+                    if noobj(r) and routed_ok(cfg, q[1]):
+                        continue                                   # unroutable: the object does not exist
+                    if routed_ok(cfg, q[1]):
                         if unknown(r):
                             known = 'C06/unknown-tag-single-request-ends-session'
                         why = 'supported service on an acceptable route answered with encapsulation status 0x%02x and the session ended' % status
                         break
                     continue
-                if not (cfg is None or not q[1] or (cfg != [] and q[1] == cfg)):
+                if noobj(q[2]):
+                    why = 'a request addressed to an object that does not exist (unroutable) was answered with encapsulation status 0'; break
+                if not routed_ok(cfg, q[1]):
                     why = 'an unroutable request (route path %r on a device configured %r) was answered with encapsulation status 0' % (q[1], cfg); break
                 cip = E.unwrap_send_data(body)
                 svc = {'read': 0x4C, 'readf': 0x52, 'write': 0x4D, 'writef': 0x53, 'get': 0x0E, 'set': 0x10, 'multi': 0x0A}[q[2][0]]
@@ -380,6 +421,14 @@ def run(ctx):
                     ctx.violation(w, why)
             continue
         # ---- correspondence with the session model
+        cutat = model_part(cfg, session)[1]
+        if cutat is not None and not (mreps and mreps[-1][2] != 0):      # (unless an earlier request already ended the session)
+            last = parsed[-1]
+            if not (last[2] != 0 and not last[5]):
+                nbad += 1
+                ctx.violation(w, 'the session did not end with the non-zero status frame answering the request to an object that does not exist')
+                continue
+            parsed = parsed[:-1]
         impl = [(p[0], p[1] if p[0] != 0x65 else 'handle', p[2], p[3], p[4],
                  ('register',) if p[0] == 0x65 else ('list', p[0]) if p[0] in LISTS else (('cip', E.unwrap_send_data(p[5])) if p[2] == 0 else ('none',)))
                 for p in parsed]
